@@ -170,6 +170,7 @@ def run_site(chk: Check, sc: Scratch, idx: int, nhist: int, histlen: int) -> Non
             driver.clean_server_files(root)
             baseline: typing.Dict[typing.Tuple[bytes, bool], bytes] = {}
             good: typing.List[typing.Tuple[str, bytes, bool, sites.Obj, str]] = []
+            search_of: typing.Dict[bytes, bytes] = {}
             for o in model.objs:
                 if o.needs_full and not full:
                     continue
@@ -180,6 +181,13 @@ def run_site(chk: Check, sc: Scratch, idx: int, nhist: int, histlen: int) -> Non
                         continue
                     data, tls = reqs.render(view, o.selector)
                     good.append(("good:" + view, data, tls, o, view))
+                    if ("exec" in o.tags or "pyg" in o.tags) and view not in ("gopherp!", "httphead", "waphead"):
+                        # the same script with a search string of its own, then without again
+                        q = b"q-" + view.encode() + b"-%d" % len(good)
+                        d2, _ = reqs.render(view, o.selector, q)
+                        good.append(("good-search:" + view, d2, tls, o, view))
+                        search_of[d2] = q
+                        good.append(("good:" + view, data, tls, o, view))
             for gi, (label, data, tls, o, view) in enumerate(good):
                 driver.clean_server_files(root)
                 # every third well-formed request comes from a client that keeps its side of the connection
@@ -190,6 +198,16 @@ def run_site(chk: Check, sc: Scratch, idx: int, nhist: int, histlen: int) -> Non
                 if keep_open:
                     chk.count("requests_from_clients_that_keep_the_connection_open")
                 v = run.judge(label, data, resp, expect=o, view=view, ctx=hl_name)
+                if v is not None and ("exec" in o.tags or "pyg" in o.tags) and view not in ("gopherp!", "httphead", "waphead"):
+                    # what the script / PYG module was handed must be this request's search string, nobody else's
+                    from vf.checks import c06
+                    echo = c06.extract_echo(view, resp, b"PYG SEARCH=" if "pyg" in o.tags else b"SEARCH=")
+                    want = search_of.get(data, b"")
+                    chk.count("script_search_echoes_checked")
+                    if echo is not None and echo != want:
+                        chk.witness("C03/handler-saw-another-requests-search-string", {
+                            "request": data[:200], "sent": want, "handler_received": echo, "ctx": hl_name})
+                        v = None
                 if v is not None:
                     baseline[(data, tls)] = validate.normalize_ts(resp.data)
             chk.count("wellformed_requests", len(good))
